@@ -136,7 +136,7 @@ func runC16Overlap(storage string, a, b uint64) error {
 	select {
 	case <-hp.arrived:
 	case <-time.After(30 * time.Second):
-		return fmt.Errorf("harness: GET 1 never reached the storage read")
+		return fmt.Errorf("%s GET 1 never reached the storage read", vlib.InfraMarker)
 	}
 	var proof [][]byte
 	ext := []string(nil)
